@@ -4,7 +4,7 @@ import z3
 from . import smt, ropes
 from .values import Unsupported, VInt, VBool, VNone, NONE, VSeq, VTuple, VRef, VFunc, VOpaque, VFloat, Seg, is_conc, zint, zbool, simp
 
-NAMES = {"old", "forall", "exists", "implies", "ite", "iff", "unpack32", "unpack64", "pack32", "pack64", "seq",
+NAMES = {"local", "old", "forall", "exists", "implies", "ite", "iff", "unpack32", "unpack64", "pack32", "pack64", "seq",
          "isnone", "notnone", "held", "ghost", "typeis", "at", "bacc", "pow2", "tc", "event_count", "events",
          "isbytes", "isstr", "isint", "asbytes_spec", "utf8enc", "utf8dec", "utf8ok", "slist", "fn", "setghost",
          "in_table", "fresh_eq"}
@@ -49,6 +49,15 @@ def call(I, name, args, kwargs, fr):
         del st.pc[n0:]
         q = z3.ForAll(vs, body) if name == "forall" else z3.Exists(vs, body)
         return VBool(q)
+    if name == "local":
+        # value of a local variable of the function under verification at exit, or the default if unbound
+        nm = ropes.conc_value(args[0])
+        f = fr
+        while f is not None:
+            if not f.spec and nm in f.locals:
+                return f.locals[nm]
+            f = f.closure
+        return args[1] if len(args) > 1 else NONE
     if name == "implies":
         return VBool(simp(z3.Implies(_b(I, args[0]), _b(I, args[1]))))
     if name == "iff":
